@@ -73,6 +73,8 @@ def oracle(case, outs):
                         bad.append((j, "commit returned false for a transaction that had read the heads"))
                 else:
                     stats["commit_other_err"] += 1
+                    if r == "err:Storage:IoError":
+                        stats["commit_io_fault"] = stats.get("commit_io_fault", 0) + 1
                     if t in captured and captured[t] != events and existed:
                         bad.append((j, "stale transaction failed with %s instead of ConcurrentTransaction" % r))
             captured.pop(t, None)
@@ -99,7 +101,7 @@ def run(ctx):
     cases = T.make_cases(ctx, 0, 0, 0)
     for i in range(n):
         d = T.gen_dag(r, r.range(8, 60 if ctx.thorough else 22), reject_w=5, merge_w=12)
-        ops = T.gen_history(r, d, ntx=r.choice([2, 3, 3, 4]), p_dup=5, p_bad=3, p_flush=8, p_commit=14, p_action=9, p_probe=1)
+        ops = T.gen_history(r, d, ntx=r.choice([2, 3, 3, 4]), p_dup=5, p_bad=3, p_flush=8, p_commit=14, p_action=9, p_probe=1, p_fault=12)
         cases.append(("i%d" % i, "libc" if i % 3 == 1 else "mem", T.gid_of(d), d, ops))
     for i in range(60 if ctx.thorough else 8):
         d, ops = T.gen_merge_history(r, r.range(12, 34), ntx=r.choice([2, 3]), p_commit=12)
